@@ -19,6 +19,7 @@ func forkAndExecInChild(r *Runner, argv0 *byte, argv, env []*byte, workdir, host
 	var (
 		clone3      *cloneArgs
 		pid         uintptr
+		ppid        uintptr
 		err2        syscall.Errno
 		unshareUser = r.CloneFlags&unix.CLONE_NEWUSER == unix.CLONE_NEWUSER
 		i           int
@@ -55,6 +56,9 @@ func forkAndExecInChild(r *Runner, argv0 *byte, argv, env []*byte, workdir, host
 	// create new fds that are not yet close-on-exec
 	// before we fork.
 	syscall.ForkLock.Lock()
+
+	// the child compares it with getppid to notice that its parent is already gone
+	ppid, _, _ = syscall.RawSyscall(syscall.SYS_GETPID, 0, 0, 0)
 
 	// About to call fork.
 	// No more allocation or calls of non-assembly functions.
@@ -420,6 +424,16 @@ func forkAndExecInChild(r *Runner, argv0 *byte, argv, env []*byte, workdir, host
 		if err1 != 0 {
 			childExitError(pipe, LocPtraceMe, err1)
 		}
+		// a tracer that died before this point will never be signalled about: PTRACE_TRACEME
+		// would attach this process to whoever inherited it and leave it stopped for ever
+		// (in a new pid namespace getppid is always 0 and tells nothing)
+		if flag&syscall.CLONE_NEWPID == 0 {
+			if r1, _, _ = syscall.RawSyscall(syscall.SYS_GETPPID, 0, 0, 0); r1 != ppid {
+				for {
+					syscall.RawSyscall(syscall.SYS_EXIT, uintptr(syscall.ESRCH), 0, 0)
+				}
+			}
+		}
 		_, _, err1 = syscall.RawSyscall(syscall.SYS_PTRACE, uintptr(syscall.PTRACE_TRACEME), 0, 0)
 		if err1 != 0 {
 			childExitError(pipe, LocPtraceMe, err1)
@@ -502,6 +516,16 @@ func forkAndExecInChild(r *Runner, argv0 *byte, argv, env []*byte, workdir, host
 		_, _, err1 = syscall.RawSyscall(syscall.SYS_PRCTL, syscall.PR_SET_PDEATHSIG, uintptr(syscall.SIGKILL), 0)
 		if err1 != 0 {
 			childExitError(pipe, LocPtraceMe, err1)
+		}
+		// a tracer that died before this point will never be signalled about: PTRACE_TRACEME
+		// would attach this process to whoever inherited it and leave it stopped for ever
+		// (in a new pid namespace getppid is always 0 and tells nothing)
+		if flag&syscall.CLONE_NEWPID == 0 {
+			if r1, _, _ = syscall.RawSyscall(syscall.SYS_GETPPID, 0, 0, 0); r1 != ppid {
+				for {
+					syscall.RawSyscall(syscall.SYS_EXIT, uintptr(syscall.ESRCH), 0, 0)
+				}
+			}
 		}
 		_, _, err1 = syscall.RawSyscall(syscall.SYS_PTRACE, uintptr(syscall.PTRACE_TRACEME), 0, 0)
 		if err1 != 0 {
